@@ -77,6 +77,9 @@ pub fn xpt(args: &[&str]) -> String {
     if args.len() == 2 && args[0] == "rawaddr" {
         return rawaddr(args[1]);
     }
+    if args.len() == 2 && args[0] == "rebind" {
+        return rebind(args[1]);
+    }
     if args.len() == 2 && args[0] == "late" {
         return late(args[1]);
     }
@@ -418,6 +421,56 @@ fn rawaddr(mode: &str) -> String {
     }
 }
 
+
+/// `XPT rebind <b|nb>`: a socket is created under a name while an EARLIER socket of the same name is still open (a CCP restarted
+/// over its predecessor). What the newer one sends must arrive with the address it is bound at - the name - so that a reply to
+/// the learned address reaches it; datagrams to the name reach the newer socket.
+fn rebind(mode: &str) -> String {
+    let tag = format!("vp{}-{}", std::process::id(), UNIQ.fetch_add(1, Ordering::SeqCst));
+    let rname = format!("{}-r", tag);
+    let sname = format!("{}-s", tag);
+    let res = std::panic::catch_unwind(|| {
+        let want = PathBuf::from(format!("/tmp/ccp/{}", sname));
+        let to_r = PathBuf::from(format!("/tmp/ccp/{}", rname));
+        let try_recv = |r: &dyn Fn(&mut [u8]) -> portus::Result<(usize, PathBuf)>| {
+            let mut buf = [0u8; 64];
+            let t = Instant::now();
+            loop {
+                match r(&mut buf) {
+                    Ok((n, a)) => return Some((buf[..n].to_vec(), a)),
+                    Err(_) if t.elapsed() < Duration::from_secs(3) => std::thread::yield_now(),
+                    Err(_) => return None,
+                }
+            }
+        };
+        if mode == "b" {
+            let r = portus::ipc::unix::Socket::<Blocking>::new(&rname).ok()?;
+            let _old = portus::ipc::unix::Socket::<Blocking>::new(&sname).ok()?;
+            let new = portus::ipc::unix::Socket::<Blocking>::new(&sname).ok()?;
+            new.send(b"hello", &to_r).ok()?;
+            let got = try_recv(&|b| r.recv(b))?;
+            let reply_sent = r.send(b"reply", &got.1).is_ok();
+            let back = if reply_sent { try_recv(&|b| new.recv(b)) } else { None };
+            Some((got.0 == b"hello", got.1 == want, matches!(back, Some((ref d, ref a)) if d == b"reply" && *a == to_r)))
+        } else {
+            let r = portus::ipc::unix::Socket::<Nonblocking>::new(&rname).ok()?;
+            let _old = portus::ipc::unix::Socket::<Nonblocking>::new(&sname).ok()?;
+            let new = portus::ipc::unix::Socket::<Nonblocking>::new(&sname).ok()?;
+            new.send(b"hello", &to_r).ok()?;
+            let got = try_recv(&|b| r.recv(b))?;
+            let reply_sent = r.send(b"reply", &got.1).is_ok();
+            let back = if reply_sent { try_recv(&|b| new.recv(b)) } else { None };
+            Some((got.0 == b"hello", got.1 == want, matches!(back, Some((ref d, ref a)) if d == b"reply" && *a == to_r)))
+        }
+    });
+    let _ = std::fs::remove_file(format!("/tmp/ccp/{}", sname));
+    let _ = std::fs::remove_file(format!("/tmp/ccp/{}", rname));
+    match res {
+        Ok(Some((d, a, r))) => format!("REBIND data_ok={} addr_ok={} reply_ok={}", d as u8, a as u8, r as u8),
+        Ok(None) => "REBIND SOCKERR".into(),
+        Err(_) => "REBIND PANIC".into(),
+    }
+}
 
 /// `XPT late <nb|nbs>`: a NONBLOCKING unix sender bursts 64 datagrams at a receiver that is not receiving yet (its kernel queue
 /// fills up after a handful); every send answers Ok or Err. Then the receiver drains. Exactly the datagrams whose send answered
